@@ -98,7 +98,12 @@ def gen_cases(ctx):
             # time values beyond 2**24: only the earliest-start-time observer is judged, after the
             # first dispatch of an episode (then every unscheduled entry of its float64 table has
             # been recomputed exactly), against the float32 rounding of the exact value
-            c["instance"] = gen.gen_instance(rng, "huge", max_jobs=3, max_machines=3)
+            saved = gen.HUGE_EXPONENTS
+            gen.HUGE_EXPONENTS = [24, 24, 25, 26]      # the float32 carrier is judged up to here
+            try:
+                c["instance"] = gen.gen_instance(rng, "huge", max_jobs=3, max_machines=3)
+            finally:
+                gen.HUGE_EXPONENTS = saved
             c["filter"] = None
             c["mode"] = "single"
             c["observers"] = [{"type": "earliest_start_time", "feature_types": None, "form": "class"}]
